@@ -1,83 +1,1583 @@
-//! exploration (temporary)
-use saito_core::core::consensus::slip::Slip;
-use saito_core::core::consensus::transaction::Transaction;
-use verif_harness::world::*;
+//! C19 — wallet accounting matches the ledger.
+//!
+//! (a) unit level: drives a real `Wallet` with operation sequences (wind / unwind of
+//!     blocks, add_slip / delete_slip, remove_old_slips, delete_block,
+//!     Transaction::create_with_multiple_payments, create_staking_transaction,
+//!     add_to_pending) and records after every step the observable state; the same
+//!     sequence (with the hash-set iteration order that was actually used) goes to
+//!     the Gallina model `Wallet.trace` in generated case files.
+//! (b) node level: real chains built with world.rs (window 3/5/8, golden tickets,
+//!     payments between keys 1..3, automatic rebroadcast, pruning); after every
+//!     accepted block the node's wallet is compared with `blockchain.utxoset`
+//!     (the C19 oracle) and with the model, and transactions are built with the
+//!     node's wallet and validated against the ledger.
+//! Direct oracles on the implementation: balance = sum of unspent, unspent = ledger
+//! view minus committed, built transactions: no duplicate input, out <= in,
+//! inputs unspent, value conservation, validate against the ledger.
+use std::collections::{BTreeMap, BTreeSet};
+use std::panic::{catch_unwind, AssertUnwindSafe};
+use std::sync::Arc;
 
-fn show(k: &[u8; 59]) -> String {
-    let s = Slip::parse_slip_from_utxokey(k).unwrap();
-    format!("({}:{}:{}:{} a={} t={:?})", s.public_key[32], s.block_id, s.tx_ordinal, s.slip_index, s.amount, s.slip_type)
+use ahash::{AHashMap, AHashSet, RandomState};
+use saito_core::core::consensus::block::Block;
+use saito_core::core::consensus::blockchain::Blockchain;
+use saito_core::core::consensus::slip::{Slip, SlipType};
+use saito_core::core::consensus::transaction::{Transaction, TransactionType};
+use saito_core::core::consensus::wallet::Wallet;
+use saito_core::core::defs::{SaitoPrivateKey, SaitoPublicKey, SaitoUTXOSetKey, UtxoSet};
+use tokio::sync::RwLock;
+use verif_harness::common::{jstr, Args, Summary};
+use verif_harness::gal;
+use verif_harness::rng::Rng;
+use verif_harness::world::{self, keypair, make_block, make_genesis, Node, Params};
+
+const ID_EDGE: &str = "window-edge-shortfall";
+const ID_WRAP: &str = "request-wrap-release";
+const ID_CAP: &str = "input-cap-255";
+const ID_STALE: &str = "unwind-stale-coordinates";
+
+type Rows = Vec<Vec<u64>>;
+type K6 = [u64; 6];
+
+// ------------------------------------------------------------------ interning
+
+struct Tab {
+    pks: BTreeMap<[u8; 33], u64>,
+    hashes: BTreeMap<[u8; 32], u64>,
+}
+impl Tab {
+    fn new() -> Tab {
+        let mut pks = BTreeMap::new();
+        pks.insert([0u8; 33], 0);
+        for n in 1..=3u8 {
+            pks.insert(keypair(n).0, n as u64);
+        }
+        Tab { pks, hashes: BTreeMap::new() }
+    }
+    fn pk(&mut self, p: &[u8]) -> u64 {
+        let mut a = [0u8; 33];
+        a.copy_from_slice(p);
+        let n = 10 + self.pks.len() as u64;
+        *self.pks.entry(a).or_insert(n)
+    }
+    fn h(&mut self, h: &[u8; 32]) -> u64 {
+        let n = 1 + self.hashes.len() as u64;
+        *self.hashes.entry(*h).or_insert(n)
+    }
+    fn k6(&mut self, k: &SaitoUTXOSetKey) -> K6 {
+        [
+            self.pk(&k[0..33]),
+            u64::from_be_bytes(k[33..41].try_into().unwrap()),
+            u64::from_be_bytes(k[41..49].try_into().unwrap()),
+            k[49] as u64,
+            u64::from_be_bytes(k[50..58].try_into().unwrap()),
+            k[58] as u64,
+        ]
+    }
+    fn g_key(&mut self, k: &SaitoUTXOSetKey) -> String {
+        let a = self.k6(k);
+        format!("(K {} {} {} {} {} {})", a[0], a[1], a[2], a[3], a[4], a[5])
+    }
+    fn g_slip(&mut self, s: &Slip) -> String {
+        format!(
+            "(S {} {} {} {} {} {} {})",
+            self.pk(&s.public_key),
+            s.amount,
+            s.slip_index,
+            s.block_id,
+            s.tx_ordinal,
+            s.slip_type as u8,
+            self.g_key(&s.utxoset_key)
+        )
+    }
+    fn g_tx(&mut self, t: &Transaction) -> String {
+        let from: Vec<String> = t.from.iter().map(|s| self.g_slip(s)).collect();
+        let to: Vec<String> = t.to.iter().map(|s| self.g_slip(s)).collect();
+        let spv = if t.transaction_type == TransactionType::SPV {
+            format!("(Some {})", t.txs_replacements)
+        } else {
+            "None".to_string()
+        };
+        let h = match &t.hash_for_signature {
+            Some(h) => format!("(Some {})", self.h(h)),
+            None => "None".to_string(),
+        };
+        format!("(T {} {} {} {})", gal::list(&from), gal::list(&to), spv, h)
+    }
+    fn g_block(&mut self, b: &Block) -> String {
+        let txs: Vec<String> = b.transactions.iter().map(|t| self.g_tx(t)).collect();
+        format!("(B {} {})", b.id, gal::list(&txs))
+    }
+    fn g_keys(&mut self, ks: &[SaitoUTXOSetKey]) -> String {
+        let v: Vec<String> = ks.iter().map(|k| self.g_key(k)).collect();
+        gal::list(&v)
+    }
 }
 
-#[tokio::main(flavor = "current_thread")]
-async fn main() {
-    verif_harness::common::init_log();
-    let gp: u64 = std::env::args().nth(1).map(|s| s.parse().unwrap()).unwrap_or(5);
-    let params = Params { genesis_period: gp, ..Params::default() };
-    let mut node = Node::new(&params, 1);
-    let (pk2, sk2) = keypair(2);
-    let g = make_genesis(&node, 1000, &[(node.pk, 1_000_000), (node.pk, 500_000), (pk2, 700_000), (node.pk, 3)]).await.unwrap();
-    println!("genesis {:?} txs {}", node.add_block(g.clone()).await, g.transactions.len());
-    let mut parent = g.clone();
-    let mut spend2 = outputs_of(&g, 2);
-    for i in 0..16u64 {
-        let ts = parent.timestamp + 120_000;
-        // key 2 pays node 100+i
-        let mut txs = vec![];
-        if i % 3 == 0 && i < 5 {
-            let tx = make_tx(&spend2[0..1], &[(pk2, spend2[0].amount - 100 - i), (node.pk, 100 + i)], &sk2, ts);
-            txs.push(tx);
-        }
-        let b = match make_block(&node, parent.hash, ts, txs, i % 2 == 0 && i != 6, i).await {
-            Ok(b) => b,
-            Err(e) => {
-                println!("make_block failed {}", e);
-                break;
-            }
-        };
-        let r = node.add_block(b.clone()).await;
-        println!(
-            "block {} -> {:?} txs {} types {:?}",
-            b.id,
-            r,
-            b.transactions.len(),
-            b.transactions.iter().map(|t| t.transaction_type as u8).collect::<Vec<_>>()
-        );
-        for t in &b.transactions {
-            println!("   tx type {:?} from {:?} to {:?}", t.transaction_type,
-              t.from.iter().map(|s| show(&s.utxoset_key)).collect::<Vec<_>>(),
-              t.to.iter().map(|s| show(&s.utxoset_key)).collect::<Vec<_>>());
-        }
-        if let Some(idx) = b.transactions.iter().position(|t| t.transaction_type as u8 == 0) {
-            spend2 = outputs_of(&b, idx);
-        }
-        parent = b;
-        let latest = node.blockchain.get_latest_block_id();
-        let w = node.wallet_lock.read().await;
-        let mut un: Vec<_> = w.unspent_slips.iter().cloned().collect();
-        un.sort();
-        let mut led: Vec<_> = node
-            .blockchain
-            .utxoset
-            .iter()
-            .filter(|(k, v)| **v && k[0..33] == node.pk)
-            .map(|(k, _)| *k)
-            .collect();
-        led.sort();
-        println!("  latest {} balance {} unspent {:?}", latest, w.get_available_balance(), un.iter().map(show).collect::<Vec<_>>());
-        println!("  ledger mine {:?}", led.iter().map(show).collect::<Vec<_>>());
-        drop(w);
-        // try building a tx on a clone of the wallet
-        let mut wc = node.wallet_lock.read().await.clone();
-        let bal = wc.get_available_balance();
-        let res = Transaction::create(&mut wc, pk2, bal / 2 + 1, 0, false, None, latest, gp);
-        match res {
-            Ok(mut tx) => {
-                tx.sign(&node.sk);
-                tx.generate(&node.pk, 0, 0);
-                let v = tx.validate(&node.blockchain.utxoset, &node.blockchain, true);
-                println!("  create {} -> in {} out {} validate {}", bal / 2 + 1, tx.total_in, tx.total_out, v);
-            }
-            Err(e) => println!("  create err {:?}", e),
+// ------------------------------------------------------------------ observation
+
+fn observe(w: &Wallet, tab: &mut Tab) -> Rows {
+    let mut rows: Rows = vec![];
+    rows.push(vec![
+        0,
+        w.get_available_balance(),
+        w.slips.len() as u64,
+        w.unspent_slips.len() as u64,
+        w.staking_slips.len() as u64,
+    ]);
+    for k in w.unspent_slips.iter() {
+        let mut r = vec![1];
+        r.extend(tab.k6(k));
+        rows.push(r);
+    }
+    for (k, s) in w.slips.iter() {
+        let mut r = vec![2];
+        r.extend(tab.k6(k));
+        r.extend([
+            s.amount,
+            s.block_id,
+            s.tx_ordinal,
+            s.slip_index as u64,
+            s.slip_type as u64,
+            s.spent as u64,
+            s.lc as u64,
+        ]);
+        rows.push(r);
+    }
+    for k in w.staking_slips.iter() {
+        let mut r = vec![3];
+        r.extend(tab.k6(k));
+        rows.push(r);
+    }
+    for h in w.pending_txs.keys() {
+        rows.push(vec![6, tab.h(h)]);
+    }
+    rows
+}
+
+fn tx_rows(t: &Transaction, tab: &mut Tab) -> Rows {
+    let mut rows: Rows = vec![vec![7, 0]];
+    for (i, s) in t.from.iter().enumerate() {
+        rows.push(vec![
+            4,
+            i as u64,
+            tab.pk(&s.public_key),
+            s.amount,
+            s.slip_index as u64,
+            s.block_id,
+            s.tx_ordinal,
+            s.slip_type as u64,
+        ]);
+    }
+    for (i, s) in t.to.iter().enumerate() {
+        rows.push(vec![
+            5,
+            i as u64,
+            tab.pk(&s.public_key),
+            s.amount,
+            s.slip_index as u64,
+            s.block_id,
+            s.tx_ordinal,
+            s.slip_type as u64,
+        ]);
+    }
+    rows
+}
+
+fn det_wallet(sk: SaitoPrivateKey, pk: SaitoPublicKey) -> Wallet {
+    let mut w = Wallet::new(sk, pk);
+    fix_hashers(&mut w);
+    w
+}
+/// fixed hash seeds: the iteration order of the hash sets (which decides which slips
+/// generate_slips picks) is then a function of the operation history only
+fn fix_hashers(w: &mut Wallet) {
+    w.unspent_slips = AHashSet::with_hasher(RandomState::with_seeds(1, 2, 3, 4));
+    w.staking_slips = AHashSet::with_hasher(RandomState::with_seeds(5, 6, 7, 8));
+    w.slips = AHashMap::with_hasher(RandomState::with_seeds(9, 10, 11, 12));
+    w.pending_txs = AHashMap::with_hasher(RandomState::with_seeds(13, 14, 15, 16));
+}
+
+fn panic_msg(e: Box<dyn std::any::Any + Send>) -> String {
+    if let Some(s) = e.downcast_ref::<String>() {
+        s.clone()
+    } else if let Some(s) = e.downcast_ref::<&str>() {
+        s.to_string()
+    } else {
+        "?".to_string()
+    }
+}
+
+// ------------------------------------------------------------------ one recorded run
+
+/// everything needed to print one case
+struct Rec {
+    kind: String,
+    gp: u64,
+    groups: Vec<(Vec<String>, Rows)>,
+    failures: Vec<String>,
+    known: Vec<(&'static str, String)>,
+    creates_ok: u64,
+    creates_real_input: u64,
+    winds_changed: u64,
+    unwinds: u64,
+    panics: Vec<u64>,
+    notes: Vec<String>,
+}
+impl Rec {
+    fn new(kind: &str, gp: u64) -> Rec {
+        Rec {
+            kind: kind.to_string(),
+            gp,
+            groups: vec![],
+            failures: vec![],
+            known: vec![],
+            creates_ok: 0,
+            creates_real_input: 0,
+            winds_changed: 0,
+            unwinds: 0,
+            panics: vec![],
+            notes: vec![],
         }
     }
+    fn push(&mut self, ops: Vec<String>, mut rows: Rows) {
+        rows.sort();
+        self.groups.push((ops, rows));
+    }
+}
+
+fn dbg_mode() -> bool {
+    let r = catch_unwind(|| {
+        let x: u64 = std::hint::black_box(u64::MAX);
+        std::hint::black_box(x + std::hint::black_box(1))
+    });
+    r.is_err()
+}
+
+/// balance = sum of the amounts of the unspent slips (O1), unspent within slips (O2)
+fn check_balance(w: &Wallet) -> Result<(), String> {
+    let mut sum: u128 = 0;
+    for k in w.unspent_slips.iter() {
+        match w.slips.get(k) {
+            Some(s) => sum += s.amount as u128,
+            None => return Err("an unspent key is missing from the slips map".to_string()),
+        }
+    }
+    let bal = w.get_available_balance() as u128;
+    if sum == bal {
+        Ok(())
+    } else if sum >= (1u128 << 64) && sum % (1u128 << 64) == bal {
+        // more than u64::MAX held: only reachable with made-up amounts, release wraps
+        Ok(())
+    } else {
+        Err(format!("available_balance {} differs from the sum {} of the unspent slips", bal, sum))
+    }
+}
+
+fn key_fields_match(w: &Wallet, k: &SaitoUTXOSetKey) -> bool {
+    match w.slips.get(k) {
+        None => true,
+        Some(s) => {
+            let mut x = Slip::default();
+            x.public_key = w.public_key;
+            x.amount = s.amount;
+            x.block_id = s.block_id;
+            x.tx_ordinal = s.tx_ordinal;
+            x.slip_index = s.slip_index;
+            x.slip_type = s.slip_type;
+            x.get_utxoset_key() == *k
+        }
+    }
+}
+
+struct CreateCall {
+    keys: Vec<SaitoPublicKey>,
+    payments: Vec<u64>,
+    fee: u64,
+    latest: u64,
+    gp: u64,
+}
+
+/// runs Transaction::create_with_multiple_payments on the real wallet, records the
+/// model operation + observation, evaluates the built-transaction oracles.
+/// `ledger`: utxo set to validate against (None = no ledger in this case kind).
+/// Returns the transaction if it was built and passed every check.
+fn do_create(
+    rec: &mut Rec,
+    tab: &mut Tab,
+    w: &mut Wallet,
+    sk: &SaitoPrivateKey,
+    call: &CreateCall,
+    ledger: Option<(&UtxoSet, &Blockchain)>,
+    committed: &mut BTreeSet<SaitoUTXOSetKey>,
+    dbg: bool,
+) -> Result<Option<Transaction>, ()> {
+    let order: Vec<SaitoUTXOSetKey> = w.unspent_slips.iter().cloned().collect();
+    let pre = w.clone();
+    let keys_n: Vec<u64> = call.keys.iter().map(|k| tab.pk(k)).collect();
+    let op = format!(
+        "OCreate {} {} {} {} {} {}",
+        tab.g_keys(&order),
+        gal::nlist(&keys_n),
+        gal::nlist(&call.payments),
+        call.fee,
+        call.latest,
+        call.gp
+    );
+    let res = catch_unwind(AssertUnwindSafe(|| {
+        Transaction::create_with_multiple_payments(
+            w,
+            call.keys.clone(),
+            call.payments.clone(),
+            call.fee,
+            None,
+            call.latest,
+            call.gp,
+        )
+    }));
+    let pay128: u128 = call.payments.iter().map(|p| *p as u128).sum();
+    let fee_eff = if call.fee > pre.get_available_balance() { 0 } else { call.fee };
+    let req128 = pay128 + fee_eff as u128;
+    match res {
+        Err(e) => {
+            let msg = panic_msg(e);
+            let site = if msg.contains("slip should be here") {
+                5
+            } else if msg.contains("subtract with overflow") {
+                if call.gp == 0 {
+                    6
+                } else {
+                    3
+                }
+            } else if msg.contains("add with overflow") {
+                let mut acc: u64 = 0;
+                let mut sum_ovf = false;
+                for p in &call.payments {
+                    match acc.checked_add(*p) {
+                        Some(v) => acc = v,
+                        None => sum_ovf = true,
+                    }
+                }
+                if sum_ovf {
+                    8
+                } else if acc.checked_add(fee_eff).is_none() {
+                    9
+                } else {
+                    7
+                }
+            } else {
+                0
+            };
+            if site == 3 {
+                rec.failures.push(format!("create: `available_balance -=` underflowed: {}", msg));
+            }
+            if site == 0 || site == 5 || site == 7 {
+                rec.failures.push(format!("create panicked: {}", msg));
+            }
+            rec.panics.push(site);
+            rec.push(vec![op], vec![vec![9, site]]);
+            Err(())
+        }
+        Ok(Err(e)) => {
+            let code = match e.kind() {
+                std::io::ErrorKind::InvalidInput => 1,
+                _ => 2,
+            };
+            let mut rows = observe(w, tab);
+            rows.push(vec![7, code]);
+            rec.push(vec![op], rows);
+            // a refusal must leave the wallet untouched
+            if *w != pre {
+                rec.failures.push("create returned Err but changed the wallet".to_string());
+            }
+            // with enough eligible funds and no overflow the request must be served
+            Ok(None)
+        }
+        Ok(Ok(mut tx)) => {
+            let mut rows = observe(w, tab);
+            rows.extend(tx_rows(&tx, tab));
+            rec.push(vec![op], rows);
+            rec.creates_ok += 1;
+            // ---- known-class membership, computed from the pre-state ----
+            let wrap = req128 >= (1u128 << 64);
+            let thr = call.latest.saturating_sub(call.gp.wrapping_sub(1));
+            let eligible: u128 = pre
+                .unspent_slips
+                .iter()
+                .filter_map(|k| pre.slips.get(k))
+                .filter(|s| s.block_id > thr)
+                .map(|s| s.amount as u128)
+                .sum();
+            let edge = !wrap && eligible < req128;
+            let selected: Vec<SaitoUTXOSetKey> = pre
+                .unspent_slips
+                .iter()
+                .filter(|k| !w.unspent_slips.contains(*k))
+                .cloned()
+                .collect();
+            let cap = selected.len() > 255;
+            let stale = selected.iter().any(|k| !key_fields_match(&pre, k));
+            for k in &selected {
+                committed.insert(*k);
+            }
+            if tx.from.iter().any(|s| s.amount > 0) {
+                rec.creates_real_input += 1;
+            }
+            // ---- oracles ----
+            let mut bad: Vec<String> = vec![];
+            let in_keys: Vec<SaitoUTXOSetKey> = tx.from.iter().map(|s| s.get_utxoset_key()).collect();
+            let uniq: BTreeSet<&SaitoUTXOSetKey> = in_keys.iter().collect();
+            if uniq.len() != in_keys.len() {
+                bad.push("the transaction references the same output twice".to_string());
+            }
+            let sum_in: u128 = tx.from.iter().map(|s| s.amount as u128).sum();
+            let sum_out: u128 = tx.to.iter().map(|s| s.amount as u128).sum();
+            if sum_out > sum_in {
+                bad.push(format!("outputs {} exceed inputs {}", sum_out, sum_in));
+            }
+            for (s, k) in tx.from.iter().zip(in_keys.iter()) {
+                if s.amount > 0 && !pre.unspent_slips.contains(k) {
+                    bad.push(format!(
+                        "input {}:{}:{} amount {} is not an output the wallet lists as unspent",
+                        s.block_id, s.tx_ordinal, s.slip_index, s.amount
+                    ));
+                    break;
+                }
+            }
+            if call.payments.len() <= 254 && sum_in != sum_out + fee_eff as u128 {
+                bad.push(format!(
+                    "value not conserved: inputs {} != outputs {} + fee {}",
+                    sum_in, sum_out, fee_eff
+                ));
+            }
+            let spent_sum: u128 = selected.iter().filter_map(|k| pre.slips.get(k)).map(|s| s.amount as u128).sum();
+            if spent_sum != sum_in && !cap {
+                bad.push(format!(
+                    "the wallet committed {} but the transaction consumes {}",
+                    spent_sum, sum_in
+                ));
+            }
+            let mut validates = true;
+            if let Some((utxo, chain)) = ledger {
+                tx.sign(sk);
+                tx.generate(&pre.public_key, 0, 0);
+                validates = tx.validate(utxo, chain, true);
+                if !validates {
+                    bad.push("the transaction does not validate against the ledger it was built on".to_string());
+                }
+            }
+            if !bad.is_empty() {
+                let what = bad.join("; ");
+                if edge {
+                    rec.known.push((ID_EDGE, what));
+                } else if wrap && !dbg {
+                    rec.known.push((ID_WRAP, what));
+                } else if cap {
+                    rec.known.push((ID_CAP, what));
+                } else if stale {
+                    rec.known.push((ID_STALE, what));
+                } else {
+                    rec.failures.push(format!("create(payments {:?}, fee {}): {}", call.payments, call.fee, what));
+                }
+                return Ok(None);
+            }
+            if let Err(m) = check_balance(w) {
+                rec.failures.push(format!("after create: {}", m));
+            }
+            if validates && ledger.is_some() {
+                Ok(Some(tx))
+            } else {
+                Ok(None)
+            }
+        }
+    }
+}
+
+// ------------------------------------------------------------------ synthetic blocks
+
+fn mk_slip(pk: &SaitoPublicKey, amount: u64, ty: SlipType) -> Slip {
+    let mut s = Slip::default();
+    s.public_key = *pk;
+    s.amount = amount;
+    s.slip_type = ty;
+    s
+}
+
+fn mk_tx(ty: TransactionType, from: Vec<Slip>, to: Vec<Slip>) -> Transaction {
+    let mut t = Transaction::default();
+    t.transaction_type = ty;
+    for mut s in from {
+        s.generate_utxoset_key();
+        t.from.push(s);
+    }
+    for s in to {
+        t.to.push(s);
+    }
+    t
+}
+
+/// what Block::generate does to the transactions (indices, keys, hashes)
+fn mk_block(id: u64, mut txs: Vec<Transaction>, creator: &SaitoPublicKey, with_hash: bool) -> Block {
+    let mut b = Block::new();
+    b.id = id;
+    let mut idx: u64 = 0;
+    for t in txs.iter_mut() {
+        if with_hash {
+            t.generate(creator, idx, id);
+        } else {
+            t.generate_total_fees(idx, id);
+        }
+        if t.transaction_type == TransactionType::SPV {
+            idx += t.txs_replacements as u64;
+        } else {
+            idx += 1;
+        }
+    }
+    b.transactions = txs;
+    b
+}
+
+fn sorted_keys<F: Fn(&SaitoUTXOSetKey) -> bool>(utxo: &UtxoSet, f: F) -> Vec<SaitoUTXOSetKey> {
+    let mut v: Vec<SaitoUTXOSetKey> = utxo.iter().filter(|(k, v)| **v && f(k)).map(|(k, _)| *k).collect();
+    v.sort();
+    v
+}
+fn key_bid(k: &SaitoUTXOSetKey) -> u64 {
+    u64::from_be_bytes(k[33..41].try_into().unwrap())
+}
+fn key_amt(k: &SaitoUTXOSetKey) -> u64 {
+    u64::from_be_bytes(k[50..58].try_into().unwrap())
+}
+fn spendable_ty(k: &SaitoUTXOSetKey) -> bool {
+    k[58] != SlipType::BlockStake as u8 && k[58] != SlipType::Bound as u8
+}
+
+/// the C19 ledger oracle: unspent = (ledger: spendable, my key, in window) minus committed
+fn check_ledger(
+    w: &Wallet,
+    utxo: &UtxoSet,
+    window_top: u64,
+    gp: u64,
+    committed: &BTreeSet<SaitoUTXOSetKey>,
+) -> Result<(), (bool, String)> {
+    let low = window_top.saturating_sub(gp);
+    let expected: BTreeSet<SaitoUTXOSetKey> = utxo
+        .iter()
+        .filter(|(k, v)| {
+            **v && k[0..33] == w.public_key && spendable_ty(k) && key_bid(k) >= low && !committed.contains(*k)
+        })
+        .map(|(k, _)| *k)
+        .collect();
+    let have: BTreeSet<SaitoUTXOSetKey> = w.unspent_slips.iter().cloned().collect();
+    let missing: Vec<&SaitoUTXOSetKey> = expected.difference(&have).collect();
+    let extra: Vec<&SaitoUTXOSetKey> = have.difference(&expected).collect();
+    if missing.is_empty() && extra.is_empty() {
+        return Ok(());
+    }
+    let show = |k: &SaitoUTXOSetKey| format!("{}:{}:{} amount {}", key_bid(k), u64::from_be_bytes(k[41..49].try_into().unwrap()), k[49], key_amt(k));
+    let msg = format!(
+        "wallet unspent set differs from the ledger (window >= {}): missing {:?}, not in ledger view {:?}",
+        low,
+        missing.iter().map(|k| show(k)).collect::<Vec<_>>(),
+        extra.iter().map(|k| show(k)).collect::<Vec<_>>()
+    );
+    let only_stale = missing.is_empty() && extra.iter().all(|k| !key_fields_match(w, k));
+    Err((only_stale, msg))
+}
+
+struct Sim {
+    tab: Tab,
+    w: Wallet,
+    pk: SaitoPublicKey,
+    sk: SaitoPrivateKey,
+    utxo: UtxoSet,
+    stack: Vec<Block>,
+    committed: BTreeSet<SaitoUTXOSetKey>,
+    maxseen: u64,
+    gp: u64,
+    built: Vec<Transaction>,
+    chain: Blockchain,
+    dbg: bool,
+    rec: Rec,
+    dead: bool,
+}
+
+impl Sim {
+    fn new(kind: &str, gp: u64, dbg: bool) -> Sim {
+        let (pk, sk) = keypair(1);
+        let wl = Arc::new(RwLock::new(Wallet::new(sk, pk)));
+        Sim {
+            tab: Tab::new(),
+            w: det_wallet(sk, pk),
+            pk,
+            sk,
+            utxo: AHashMap::with_hasher(RandomState::with_seeds(21, 22, 23, 24)),
+            stack: vec![],
+            committed: BTreeSet::new(),
+            maxseen: 0,
+            gp,
+            built: vec![],
+            chain: Blockchain::new(wl, gp.max(1), 0, 0),
+            dbg,
+            rec: Rec::new(kind, gp),
+            dead: false,
+        }
+    }
+    fn top(&self) -> u64 {
+        self.stack.last().map(|b| b.id).unwrap_or(0)
+    }
+    fn wallet_panic(&mut self, op: String, msg: String, ctx: &str) {
+        let site = if msg.contains("subtract with overflow") {
+            3
+        } else if msg.contains("add with overflow") {
+            if ctx == "stake" {
+                7
+            } else {
+                2
+            }
+        } else if msg.contains("left != right") {
+            1
+        } else if ctx == "pending" {
+            10
+        } else if msg.contains("slip should be here") || (ctx == "stake" && msg.contains("None")) {
+            5
+        } else if msg.contains("unwrap()") && msg.contains("None") {
+            4
+        } else {
+            0
+        };
+        if site == 3 {
+            self.rec.failures.push(format!("{}: `available_balance -=` underflowed: {}", ctx, msg));
+        }
+        if site == 0 {
+            self.rec.failures.push(format!("{}: unexpected panic: {}", ctx, msg));
+        }
+        self.rec.panics.push(site);
+        self.rec.push(vec![op], vec![vec![9, site]]);
+        self.dead = true;
+    }
+    fn after_step(&mut self, ctx: &str, with_ledger: bool) {
+        if let Err(m) = check_balance(&self.w) {
+            self.rec.failures.push(format!("after {}: {}", ctx, m));
+        }
+        if with_ledger {
+            match check_ledger(&self.w, &self.utxo, self.maxseen, self.gp, &self.committed) {
+                Ok(()) => {}
+                Err((true, m)) => self.rec.known.push((ID_STALE, format!("after {}: {}", ctx, m))),
+                Err((false, m)) => self.rec.failures.push(format!("after {}: {}", ctx, m)),
+            }
+        }
+    }
+    fn wind(&mut self, b: Block, gp: u64, track: bool) {
+        let op = format!("OWind {} {}", self.tab.g_block(&b), gp);
+        let before = (self.w.get_available_balance(), self.w.slips.len());
+        let r = catch_unwind(AssertUnwindSafe(|| self.w.on_chain_reorganization(&b, true, gp)));
+        match r {
+            Err(e) => self.wallet_panic(op, panic_msg(e), "wind"),
+            Ok(_) => {
+                if track {
+                    for t in &b.transactions {
+                        t.on_chain_reorganization(&mut self.utxo, true);
+                        for s in &t.from {
+                            self.committed.remove(&s.utxoset_key);
+                        }
+                    }
+                    self.maxseen = self.maxseen.max(b.id);
+                    self.built.retain(|t| t.from.iter().all(|s| s.amount == 0 || self.utxo.get(&s.utxoset_key) == Some(&true)));
+                    self.stack.push(b);
+                }
+                if before != (self.w.get_available_balance(), self.w.slips.len()) {
+                    self.rec.winds_changed += 1;
+                }
+                let rows = observe(&self.w, &mut self.tab);
+                self.rec.push(vec![op], rows);
+                self.after_step("wind", track);
+            }
+        }
+    }
+    fn unwind(&mut self, b: Block, gp: u64, track: bool) {
+        let op = format!("OUnwind {} {}", self.tab.g_block(&b), gp);
+        let r = catch_unwind(AssertUnwindSafe(|| self.w.on_chain_reorganization(&b, false, gp)));
+        match r {
+            Err(e) => self.wallet_panic(op, panic_msg(e), "unwind"),
+            Ok(_) => {
+                if track {
+                    for t in &b.transactions {
+                        t.on_chain_reorganization(&mut self.utxo, false);
+                        for s in &t.to {
+                            self.committed.remove(&s.utxoset_key);
+                        }
+                    }
+                }
+                self.rec.unwinds += 1;
+                let rows = observe(&self.w, &mut self.tab);
+                self.rec.push(vec![op], rows);
+                self.after_step("unwind", track);
+            }
+        }
+    }
+    fn create(&mut self, call: CreateCall, with_ledger: bool) {
+        let ledger = if with_ledger { Some((&self.utxo, &self.chain)) } else { None };
+        match do_create(&mut self.rec, &mut self.tab, &mut self.w, &self.sk, &call, ledger, &mut self.committed, self.dbg) {
+            Err(()) => self.dead = true,
+            Ok(Some(tx)) => self.built.push(tx),
+            Ok(None) => {}
+        }
+    }
+
+    /// a block for the chain kind: no intra-block spending, at least one transaction
+    fn gen_chain_block(&mut self, rng: &mut Rng, id: u64) -> Block {
+        let (pk2, _) = keypair(2);
+        let (pk3, _) = keypair(3);
+        let low = self.maxseen.saturating_sub(self.gp);
+        let me = self.pk;
+        let mut mine: Vec<SaitoUTXOSetKey> =
+            sorted_keys(&self.utxo, |k| k[0..33] == me && spendable_ty(k) && key_bid(k) >= low);
+        let mut others: Vec<SaitoUTXOSetKey> = sorted_keys(&self.utxo, |k| k[0..33] == pk2 || k[0..33] == pk3);
+        let mut used: BTreeSet<SaitoUTXOSetKey> = BTreeSet::new();
+        let mut txs: Vec<Transaction> = vec![];
+        // automatic rebroadcast of my slips of block id - gp - 1
+        if id > self.gp + 1 {
+            let old = id - self.gp - 1;
+            let olds: Vec<SaitoUTXOSetKey> = sorted_keys(&self.utxo, |k| k[0..33] == me && key_bid(k) == old);
+            for k in olds {
+                if rng.chance(5, 6) {
+                    let mut input = Slip::parse_slip_from_utxokey(&k).unwrap();
+                    let payout = if rng.chance(1, 5) { input.amount + input.amount / 10 + 1 } else { input.amount };
+                    // the code puts the paid-out amount into the input slip
+                    input.amount = payout;
+                    let out = mk_slip(&me, payout, SlipType::ATR);
+                    txs.push(mk_tx(TransactionType::ATR, vec![input], vec![out]));
+                    used.insert(k);
+                }
+            }
+        }
+        let n = rng.range(1, 4);
+        for _ in 0..n {
+            match rng.below(100) {
+                0..=39 => {
+                    // somebody pays me
+                    let input = if !others.is_empty() && rng.chance(3, 4) {
+                        let i = rng.below(others.len() as u64) as usize;
+                        let k = others.remove(i);
+                        if used.contains(&k) {
+                            continue;
+                        }
+                        used.insert(k);
+                        Slip::parse_slip_from_utxokey(&k).unwrap()
+                    } else {
+                        let mut s = mk_slip(&pk2, rng.range(1000, 1_000_000), SlipType::Normal);
+                        s.block_id = 0;
+                        s.tx_ordinal = rng.range(0, 50);
+                        s
+                    };
+                    let a = match rng.below(10) {
+                        0 => 0,
+                        1 => 1,
+                        2 => 1 + (input.amount / 2),
+                        _ => 1 + rng.below(input.amount.min(5000)),
+                    };
+                    let a = a.min(input.amount);
+                    let mut to = vec![mk_slip(&me, a, SlipType::Normal)];
+                    if input.amount - a > 0 || rng.chance(1, 3) {
+                        let other = if rng.chance(1, 2) { pk2 } else { pk3 };
+                        to.push(mk_slip(&other, input.amount - a, SlipType::Normal));
+                    }
+                    if rng.chance(1, 6) {
+                        to.push(mk_slip(&me, rng.range(1, 50), SlipType::Normal));
+                    }
+                    txs.push(mk_tx(TransactionType::Normal, vec![input], to));
+                }
+                40..=64 => {
+                    // one of my outputs is spent on chain
+                    mine.retain(|k| !used.contains(k));
+                    if mine.is_empty() {
+                        continue;
+                    }
+                    let cnt = rng.range(1, 2).min(mine.len() as u64);
+                    let mut from = vec![];
+                    let mut total: u64 = 0;
+                    for _ in 0..cnt {
+                        let i = rng.below(mine.len() as u64) as usize;
+                        let k = mine.remove(i);
+                        used.insert(k);
+                        total = total.saturating_add(key_amt(&k));
+                        from.push(Slip::parse_slip_from_utxokey(&k).unwrap());
+                    }
+                    let pay = if total > 1 { 1 + rng.below(total - 1) } else { total };
+                    let mut to = vec![mk_slip(&pk2, pay, SlipType::Normal)];
+                    if total - pay > 0 {
+                        to.push(mk_slip(&me, total - pay, SlipType::Normal));
+                    }
+                    txs.push(mk_tx(TransactionType::Normal, from, to));
+                }
+                65..=79 => {
+                    // a transaction the wallet built earlier lands on chain
+                    if self.built.is_empty() {
+                        continue;
+                    }
+                    let i = rng.below(self.built.len() as u64) as usize;
+                    let t = self.built[i].clone();
+                    if t.from.iter().any(|s| s.amount > 0 && (used.contains(&s.utxoset_key) || self.utxo.get(&s.utxoset_key) != Some(&true))) {
+                        continue;
+                    }
+                    for s in &t.from {
+                        used.insert(s.utxoset_key);
+                    }
+                    self.built.remove(i);
+                    let mut t2 = Transaction::default();
+                    t2.from = t.from.clone();
+                    t2.to = t.to.clone();
+                    t2.timestamp = t.timestamp;
+                    t2.signature = t.signature;
+                    txs.push(t2);
+                }
+                80..=89 => {
+                    // issuance / payout without inputs
+                    let ty = *rng.pick(&[SlipType::Normal, SlipType::MinerOutput, SlipType::RouterOutput]);
+                    txs.push(mk_tx(TransactionType::Issuance, vec![], vec![mk_slip(&me, rng.range(1, 100_000), ty)]));
+                }
+                _ => {
+                    // golden-ticket-like: zero input and output of my key
+                    txs.push(mk_tx(
+                        TransactionType::GoldenTicket,
+                        vec![mk_slip(&me, 0, SlipType::Normal)],
+                        vec![mk_slip(&me, 0, SlipType::Normal)],
+                    ));
+                }
+            }
+        }
+        if txs.is_empty() {
+            txs.push(mk_tx(
+                TransactionType::GoldenTicket,
+                vec![mk_slip(&pk2, 0, SlipType::Normal)],
+                vec![mk_slip(&pk2, 0, SlipType::Normal)],
+            ));
+        }
+        mk_block(id, txs, &me, true)
+    }
+}
+
+fn pick_request(rng: &mut Rng, w: &Wallet, latest: u64, gp: u64) -> (Vec<u64>, u64) {
+    let bal = w.get_available_balance();
+    let thr = latest.saturating_sub(gp.wrapping_sub(1));
+    let elig: u64 = w
+        .unspent_slips
+        .iter()
+        .filter_map(|k| w.slips.get(k))
+        .filter(|s| s.block_id > thr)
+        .fold(0u64, |a, s| a.saturating_add(s.amount));
+    let total = match rng.below(16) {
+        0 => 0,
+        1 => 1,
+        2 => bal / 3,
+        3 => bal / 2,
+        4 => bal.saturating_sub(1),
+        5 => bal,
+        6 => bal.saturating_add(1),
+        7 => elig,
+        8 => elig.saturating_add(1).min(bal),
+        9 => elig / 2,
+        10 => u64::MAX,
+        11 => u64::MAX - bal / 2,
+        12 => rng.range(1, 1000),
+        _ => {
+            if bal > 0 {
+                rng.below(bal) + 1
+            } else {
+                0
+            }
+        }
+    };
+    let fee = match rng.below(12) {
+        0 => 1,
+        1 => 10,
+        2 => bal,
+        3 => bal.saturating_add(1),
+        4 => u64::MAX,
+        5 => total.min(7),
+        _ => 0,
+    };
+    let total = if fee <= bal && rng.chance(3, 4) { total.saturating_sub(fee.min(total)) } else { total };
+    let n = rng.range(1, 3);
+    let mut pays = vec![];
+    let mut left = total;
+    for i in 0..n {
+        if i == n - 1 {
+            pays.push(left);
+        } else {
+            let p = if left > 0 { rng.below(left + 1) } else { 0 };
+            pays.push(p);
+            left -= p;
+        }
+    }
+    (pays, fee)
+}
+
+// ------------------------------------------------------------------ case kinds
+
+/// reorganisation-tolerant chain: wind / unwind (stack discipline) / create / pending
+fn case_chain(rng: &mut Rng, dbg: bool, len: usize) -> Rec {
+    let gp = *rng.pick(&[3u64, 3, 4, 5, 8]);
+    let mut sim = Sim::new("chain", gp, dbg);
+    let (pk2, _) = keypair(2);
+    let (pk3, _) = keypair(3);
+    let allow_unwind = rng.chance(1, 2);
+    for _ in 0..len {
+        if sim.dead {
+            break;
+        }
+        let r = rng.below(100);
+        if r < 50 || sim.stack.is_empty() {
+            let id = sim.top() + 1;
+            let b = sim.gen_chain_block(rng, id);
+            sim.wind(b, gp, true);
+        } else if r < 62 && allow_unwind {
+            let b = sim.stack.pop().unwrap();
+            sim.unwind(b, gp, true);
+        } else if r < 94 {
+            let latest = sim.top();
+            let (pays, fee) = pick_request(rng, &sim.w, latest, gp);
+            let mut keys: Vec<SaitoPublicKey> =
+                pays.iter().map(|_| if rng.chance(1, 2) { pk2 } else { pk3 }).collect();
+            if rng.chance(1, 40) {
+                keys.pop();
+            }
+            if rng.chance(1, 12) {
+                keys[0] = sim.pk;
+            }
+            sim.create(CreateCall { keys, payments: pays, fee, latest, gp }, true);
+        } else if !sim.built.is_empty() {
+            let t = sim.built[rng.below(sim.built.len() as u64) as usize].clone();
+            let h = sim.tab.h(&t.hash_for_signature.unwrap());
+            let op = format!("OPending (Some 1) false (Some {})", h);
+            sim.w.add_to_pending(t);
+            let rows = observe(&sim.w, &mut sim.tab);
+            sim.rec.push(vec![op], rows);
+        }
+    }
+    sim.rec
+}
+
+/// arbitrary API-level sequences (no ledger): every public mutator
+fn case_raw(rng: &mut Rng, dbg: bool, len: usize) -> Rec {
+    let gp = *rng.pick(&[0u64, 1, 2, 3, 5]);
+    let mut sim = Sim::new("raw", gp, dbg);
+    let me = sim.pk;
+    let (pk2, _) = keypair(2);
+    let mut blocks: Vec<Block> = vec![];
+    let big = rng.chance(1, 6);
+    let tys = [
+        SlipType::Normal,
+        SlipType::Normal,
+        SlipType::Normal,
+        SlipType::ATR,
+        SlipType::MinerOutput,
+        SlipType::BlockStake,
+        SlipType::BlockStake,
+        SlipType::Bound,
+    ];
+    let amount = |rng: &mut Rng| -> u64 {
+        match rng.below(12) {
+            0 => 0,
+            1 => 1,
+            2 if big => u64::MAX,
+            3 if big => u64::MAX / 2 + rng.below(1000),
+            _ => rng.range(1, 10_000),
+        }
+    };
+    for _ in 0..len {
+        if sim.dead {
+            break;
+        }
+        match rng.below(100) {
+            0..=17 => {
+                // add_slip with the coordinates of the slip (what a consistent caller passes)
+                let mut s = mk_slip(if rng.chance(9, 10) { &me } else { &pk2 }, amount(rng), *rng.pick(&tys));
+                s.block_id = rng.range(0, 9);
+                s.tx_ordinal = rng.range(0, 3);
+                s.slip_index = rng.range(0, 2) as u8;
+                if rng.chance(1, 2) {
+                    s.generate_utxoset_key();
+                }
+                let lc = rng.chance(3, 4);
+                let op = format!("OAddSlip {} {} {} {}", s.block_id, s.tx_ordinal, sim.tab.g_slip(&s), gal::boolean(lc));
+                let (bid, txi) = (s.block_id, s.tx_ordinal);
+                let r = catch_unwind(AssertUnwindSafe(|| sim.w.add_slip(bid, txi, &s, lc, None)));
+                match r {
+                    Err(e) => sim.wallet_panic(op, panic_msg(e), "add_slip"),
+                    Ok(()) => {
+                        let rows = observe(&sim.w, &mut sim.tab);
+                        sim.rec.push(vec![op], rows);
+                        sim.after_step("add_slip", false);
+                    }
+                }
+            }
+            18..=27 => {
+                // delete_slip: an existing key (cached) or a slip whose cache is not set
+                let mut keys: Vec<SaitoUTXOSetKey> = sim.w.slips.keys().cloned().collect();
+                keys.sort();
+                let s = if !keys.is_empty() && rng.chance(3, 4) {
+                    let k = keys[rng.below(keys.len() as u64) as usize];
+                    let mut s = Slip::parse_slip_from_utxokey(&k).unwrap();
+                    if rng.chance(1, 5) {
+                        // same fields, cache not generated: the code looks up the zero key
+                        s.utxoset_key = [0; 59];
+                        s.is_utxoset_key_set = false;
+                    }
+                    s
+                } else {
+                    let mut s = mk_slip(&me, amount(rng), SlipType::Normal);
+                    s.block_id = rng.range(0, 9);
+                    s.generate_utxoset_key();
+                    s
+                };
+                let op = format!("ODeleteSlip {}", sim.tab.g_slip(&s));
+                let r = catch_unwind(AssertUnwindSafe(|| sim.w.delete_slip(&s, None)));
+                match r {
+                    Err(e) => sim.wallet_panic(op, panic_msg(e), "delete_slip"),
+                    Ok(()) => {
+                        let rows = observe(&sim.w, &mut sim.tab);
+                        sim.rec.push(vec![op], rows);
+                        sim.after_step("delete_slip", false);
+                    }
+                }
+            }
+            28..=49 => {
+                // wind / unwind an arbitrary block (ids in any order, NFT groups, SPV)
+                let id = rng.range(if rng.chance(1, 30) { 0 } else { 1 }, 12);
+                let ntx = rng.range(0, 3);
+                let mut txs = vec![];
+                for _ in 0..ntx {
+                    let mut from = vec![];
+                    let mut to = vec![];
+                    let mut keys: Vec<SaitoUTXOSetKey> = sim.w.slips.keys().cloned().collect();
+                    keys.sort();
+                    for _ in 0..rng.range(0, 3) {
+                        if !keys.is_empty() && rng.chance(2, 3) {
+                            from.push(Slip::parse_slip_from_utxokey(&keys[rng.below(keys.len() as u64) as usize]).unwrap());
+                        } else {
+                            let mut s = mk_slip(if rng.chance(1, 2) { &me } else { &pk2 }, amount(rng), *rng.pick(&tys));
+                            s.block_id = rng.range(0, 9);
+                            from.push(s);
+                        }
+                    }
+                    for _ in 0..rng.range(0, 4) {
+                        to.push(mk_slip(if rng.chance(3, 4) { &me } else { &pk2 }, amount(rng), *rng.pick(&tys)));
+                    }
+                    if rng.chance(1, 8) {
+                        // NFT group
+                        let grp = vec![
+                            mk_slip(&me, 1, SlipType::Bound),
+                            mk_slip(&me, rng.range(1, 500), SlipType::Normal),
+                            mk_slip(&pk2, 0, SlipType::Bound),
+                        ];
+                        if rng.chance(1, 2) {
+                            let mut g = grp.clone();
+                            g.extend(to);
+                            to = g;
+                        } else {
+                            to.extend(grp.clone());
+                        }
+                        if rng.chance(1, 3) {
+                            from.extend(grp);
+                        }
+                    }
+                    let ty = if rng.chance(1, 12) { TransactionType::SPV } else { TransactionType::Normal };
+                    let mut t = mk_tx(ty, from, to);
+                    if ty == TransactionType::SPV {
+                        t.txs_replacements = rng.range(0, 3) as u32;
+                    }
+                    txs.push(t);
+                }
+                let with_hash = !rng.chance(1, 25);
+                let b = mk_block(id, txs, &me, with_hash);
+                blocks.push(b.clone());
+                let g = *rng.pick(&[gp, gp, 2, 5]);
+                if rng.chance(3, 4) {
+                    sim.wind(b, g, false);
+                } else {
+                    sim.unwind(b, g, false);
+                }
+            }
+            50..=55 => {
+                let limit = rng.range(0, 10);
+                let op = format!("ORemoveOld {}", limit);
+                let r = catch_unwind(AssertUnwindSafe(|| sim.w.remove_old_slips(limit)));
+                match r {
+                    Err(e) => sim.wallet_panic(op, panic_msg(e), "remove_old_slips"),
+                    Ok(()) => {
+                        let rows = observe(&sim.w, &mut sim.tab);
+                        sim.rec.push(vec![op], rows);
+                        sim.after_step("remove_old_slips", false);
+                    }
+                }
+            }
+            56..=60 => {
+                if blocks.is_empty() {
+                    continue;
+                }
+                let b = blocks[rng.below(blocks.len() as u64) as usize].clone();
+                let op = format!("ODeleteBlock {}", sim.tab.g_block(&b));
+                let r = catch_unwind(AssertUnwindSafe(|| sim.w.delete_block(&b)));
+                match r {
+                    Err(e) => sim.wallet_panic(op, panic_msg(e), "delete_block"),
+                    Ok(_) => {
+                        let rows = observe(&sim.w, &mut sim.tab);
+                        sim.rec.push(vec![op], rows);
+                        sim.after_step("delete_block", false);
+                    }
+                }
+            }
+            61..=82 => {
+                let latest = rng.range(0, 12);
+                let g = if rng.chance(1, 25) { 0 } else { *rng.pick(&[gp.max(1), 2, 5, 100]) };
+                let (pays, fee) = pick_request(rng, &sim.w, latest, g);
+                let mut keys: Vec<SaitoPublicKey> = pays.iter().map(|_| pk2).collect();
+                if rng.chance(1, 30) {
+                    keys.push(me);
+                }
+                sim.create(CreateCall { keys, payments: pays, fee, latest, gp: g }, false);
+            }
+            83..=93 => {
+                // staking transaction
+                let sorder: Vec<SaitoUTXOSetKey> = sim.w.staking_slips.iter().cloned().collect();
+                let uorder: Vec<SaitoUTXOSetKey> = sim.w.unspent_slips.iter().cloned().collect();
+                let bal = sim.w.get_available_balance();
+                let amount = match rng.below(6) {
+                    0 => 0,
+                    1 => bal,
+                    2 => bal.saturating_add(1),
+                    3 => bal / 2,
+                    _ => rng.range(1, 20_000),
+                };
+                let unlocked = rng.range(0, 10);
+                let lastvalid = rng.range(0, 6);
+                let op = format!(
+                    "OStake {} {} {} {} {}",
+                    sim.tab.g_keys(&sorder),
+                    sim.tab.g_keys(&uorder),
+                    amount,
+                    unlocked,
+                    lastvalid
+                );
+                let pre = sim.w.clone();
+                let r = catch_unwind(AssertUnwindSafe(|| sim.w.create_staking_transaction(amount, unlocked, lastvalid)));
+                match r {
+                    Err(e) => sim.wallet_panic(op, panic_msg(e), "stake"),
+                    Ok(Err(_)) => {
+                        let mut rows = observe(&sim.w, &mut sim.tab);
+                        rows.push(vec![7, 2]);
+                        sim.rec.push(vec![op], rows);
+                        if sim.w != pre {
+                            sim.rec.failures.push("create_staking_transaction returned Err but changed the wallet".to_string());
+                        }
+                    }
+                    Ok(Ok(tx)) => {
+                        let mut rows = observe(&sim.w, &mut sim.tab);
+                        rows.extend(tx_rows(&tx, &mut sim.tab));
+                        sim.rec.push(vec![op], rows);
+                        sim.after_step("create_staking_transaction", false);
+                        let ks: Vec<SaitoUTXOSetKey> = tx.from.iter().map(|s| s.utxoset_key).collect();
+                        let uniq: BTreeSet<&SaitoUTXOSetKey> = ks.iter().collect();
+                        if uniq.len() != ks.len() {
+                            sim.rec.failures.push("staking transaction references the same output twice".to_string());
+                        }
+                        let sin: u128 = tx.from.iter().map(|s| s.amount as u128).sum();
+                        let sout: u128 = tx.to.iter().map(|s| s.amount as u128).sum();
+                        if sout > sin && tx.from.len() < 255 && sin >= amount as u128 {
+                            sim.rec.failures.push(format!("staking transaction outputs {} exceed inputs {}", sout, sin));
+                        }
+                    }
+                }
+            }
+            _ => {
+                // add_to_pending
+                let first = match rng.below(8) {
+                    0 => None,
+                    1 => Some(pk2),
+                    _ => Some(me),
+                };
+                let is_gt = rng.chance(1, 10);
+                let with_hash = !rng.chance(1, 10);
+                let mut t = Transaction::default();
+                if is_gt {
+                    t.transaction_type = TransactionType::GoldenTicket;
+                }
+                if let Some(p) = first {
+                    t.from.push(mk_slip(&p, 0, SlipType::Normal));
+                }
+                t.timestamp = rng.range(1, 5);
+                if with_hash {
+                    t.generate_hash_for_signature();
+                }
+                let fp = first.map(|p| format!("(Some {})", sim.tab.pk(&p))).unwrap_or("None".to_string());
+                let hh = t.hash_for_signature.map(|h| format!("(Some {})", sim.tab.h(&h))).unwrap_or("None".to_string());
+                let op = format!("OPending {} {} {}", fp, gal::boolean(is_gt), hh);
+                let r = catch_unwind(AssertUnwindSafe(|| sim.w.add_to_pending(t)));
+                match r {
+                    Err(e) => sim.wallet_panic(op, panic_msg(e), "pending"),
+                    Ok(()) => {
+                        let rows = observe(&sim.w, &mut sim.tab);
+                        sim.rec.push(vec![op], rows);
+                    }
+                }
+            }
+        }
+    }
+    sim.rec
+}
+
+/// scripted reproductions of the listed findings (unit level, synthetic blocks)
+fn case_scripted(which: u64, dbg: bool) -> Rec {
+    let (pk2, _) = keypair(2);
+    match which {
+        0 => {
+            // window edge: slips of block 1 are "about to be rebroadcast" at latest 5, gp 5
+            let mut sim = Sim::new("scripted-edge", 5, dbg);
+            let me = sim.pk;
+            let b1 = mk_block(1, vec![mk_tx(TransactionType::Issuance, vec![], vec![mk_slip(&me, 1000, SlipType::Normal)])], &me, true);
+            sim.wind(b1, 5, true);
+            for id in 2..=4u64 {
+                let b = mk_block(id, vec![mk_tx(TransactionType::Issuance, vec![], vec![mk_slip(&pk2, 1, SlipType::Normal)])], &me, true);
+                sim.wind(b, 5, true);
+            }
+            let b5 = mk_block(5, vec![mk_tx(TransactionType::Issuance, vec![], vec![mk_slip(&me, 100, SlipType::Normal)])], &me, true);
+            sim.wind(b5, 5, true);
+            sim.create(CreateCall { keys: vec![pk2], payments: vec![500], fee: 0, latest: 5, gp: 5 }, true);
+            sim.rec
+        }
+        1 => {
+            // payment + fee wraps (release) / panics (debug)
+            let mut sim = Sim::new("scripted-wrap", 5, dbg);
+            let me = sim.pk;
+            let b1 = mk_block(1, vec![mk_tx(TransactionType::Issuance, vec![], vec![mk_slip(&me, 1000, SlipType::Normal)])], &me, true);
+            sim.wind(b1, 5, true);
+            sim.create(CreateCall { keys: vec![pk2], payments: vec![u64::MAX], fee: 2, latest: 1, gp: 5 }, true);
+            sim.rec
+        }
+        2 => {
+            // more than 255 inputs: add_from_slip drops the rest
+            let mut sim = Sim::new("scripted-cap", 100, dbg);
+            let me = sim.pk;
+            let mut txs = vec![];
+            for _ in 0..2 {
+                txs.push(mk_tx(TransactionType::Issuance, vec![], (0..150).map(|_| mk_slip(&me, 1, SlipType::Normal)).collect()));
+            }
+            let b1 = mk_block(1, txs, &me, true);
+            sim.wind(b1, 100, true);
+            sim.create(CreateCall { keys: vec![pk2], payments: vec![300], fee: 0, latest: 1, gp: 100 }, true);
+            sim.rec
+        }
+        _ => {
+            // unwind re-adds a spent input under the spending block's id
+            let mut sim = Sim::new("scripted-stale", 5, dbg);
+            let me = sim.pk;
+            let b1 = mk_block(1, vec![mk_tx(TransactionType::Issuance, vec![], vec![mk_slip(&me, 1000, SlipType::Normal)])], &me, true);
+            let spent = b1.transactions[0].to[0].clone();
+            sim.wind(b1, 5, true);
+            let b2 = mk_block(2, vec![mk_tx(TransactionType::Issuance, vec![], vec![mk_slip(&pk2, 1, SlipType::Normal)])], &me, true);
+            sim.wind(b2, 5, true);
+            let b3 = mk_block(3, vec![mk_tx(TransactionType::Normal, vec![spent], vec![mk_slip(&pk2, 1000, SlipType::Normal)])], &me, true);
+            sim.wind(b3.clone(), 5, true);
+            sim.stack.pop();
+            sim.unwind(b3, 5, true);
+            sim.create(CreateCall { keys: vec![pk2], payments: vec![400], fee: 0, latest: 2, gp: 5 }, true);
+            sim.rec
+        }
+    }
+}
+
+/// node level: real chain through Blockchain::add_block
+async fn case_node(rng: &mut Rng, dbg: bool, gp: u64, extra_len: u64) -> (Rec, Vec<Block>) {
+    let mut rec = Rec::new("node", gp);
+    let mut tab = Tab::new();
+    let params = Params { genesis_period: gp, ..Params::default() };
+    let mut node = Node::new(&params, 1);
+    {
+        let mut w = node.wallet_lock.write().await;
+        fix_hashers(&mut w);
+    }
+    let (pk2, sk2) = keypair(2);
+    let (pk3, sk3) = keypair(3);
+    let me = node.pk;
+    let mut committed: BTreeSet<SaitoUTXOSetKey> = BTreeSet::new();
+    let mut built: Vec<Transaction> = vec![];
+    let mut blocks: Vec<Block> = vec![];
+    let g = make_genesis(
+        &node,
+        1000,
+        &[(me, rng.range(100_000, 2_000_000)), (pk2, 5_000_000), (me, rng.range(1, 500)), (pk3, 3_000_000)],
+    )
+    .await
+    .unwrap();
+    let total = 2 * gp + 4 + extra_len;
+    let mut next: Option<Block> = Some(g);
+    let mut i: u64 = 0;
+    while let Some(b) = next.take() {
+        let class = node.add_block(b.clone()).await;
+        if class != world::AddClass::OnChain {
+            rec.notes.push(format!("block {} was not accepted on chain: {:?}", b.id, class));
+            break;
+        }
+        // model: wind, then the wallet's delete_block of the purged block
+        let mut ops = vec![format!("OWind {} {}", tab.g_block(&b), gp)];
+        if b.id >= 2 * gp + 1 {
+            if let Some(p) = blocks.iter().find(|x| x.id == b.id - 2 * gp) {
+                ops.push(format!("ODeleteBlock {}", tab.g_block(p)));
+            }
+        }
+        for t in &b.transactions {
+            for s in &t.from {
+                committed.remove(&s.utxoset_key);
+            }
+        }
+        blocks.push(b.clone());
+        let latest = node.blockchain.get_latest_block_id();
+        {
+            let w = node.wallet_lock.read().await;
+            let rows = observe(&w, &mut tab);
+            rec.push(ops, rows);
+            rec.winds_changed += 1;
+            if let Err(m) = check_balance(&w) {
+                rec.failures.push(format!("after block {}: {}", b.id, m));
+            }
+            match check_ledger(&w, &node.blockchain.utxoset, latest, gp, &committed) {
+                Ok(()) => {}
+                Err((true, m)) => rec.known.push((ID_STALE, format!("after block {}: {}", b.id, m))),
+                Err((false, m)) => rec.failures.push(format!("after block {}: {}", b.id, m)),
+            }
+        }
+        built.retain(|t| t.from.iter().all(|s| s.amount == 0 || node.blockchain.utxoset.get(&s.utxoset_key) == Some(&true)));
+        // build transactions with the node's wallet
+        for _ in 0..rng.range(0, 2) {
+            let mut w = node.wallet_lock.write().await;
+            let (pays, fee) = pick_request(rng, &w, latest, gp);
+            let keys: Vec<SaitoPublicKey> = pays.iter().map(|_| if rng.chance(1, 2) { pk2 } else { pk3 }).collect();
+            let call = CreateCall { keys, payments: pays, fee, latest, gp };
+            let r = do_create(
+                &mut rec,
+                &mut tab,
+                &mut w,
+                &node.sk,
+                &call,
+                Some((&node.blockchain.utxoset, &node.blockchain)),
+                &mut committed,
+                dbg,
+            );
+            match r {
+                Err(()) => return (rec, blocks),
+                Ok(Some(tx)) => {
+                    if tx.from.iter().any(|s| s.amount > 0) {
+                        built.push(tx)
+                    }
+                }
+                Ok(None) => {}
+            }
+        }
+        i += 1;
+        if i >= total {
+            break;
+        }
+        // next block
+        let ts = b.timestamp + 120_000;
+        let mut txs: Vec<Transaction> = vec![];
+        let fund = |pk: &SaitoPublicKey, utxo: &UtxoSet| -> Vec<SaitoUTXOSetKey> {
+            let low = latest.saturating_sub(gp) + 2;
+            sorted_keys(utxo, |k| k[0..33] == *pk && key_bid(k) >= low && key_amt(k) > 10_000)
+        };
+        for (pk, sk) in [(pk2, sk2), (pk3, sk3)] {
+            if rng.chance(2, 3) {
+                let f = fund(&pk, &node.blockchain.utxoset);
+                if let Some(k) = f.first() {
+                    let input = Slip::parse_slip_from_utxokey(k).unwrap();
+                    let a = rng.range(1, 5000);
+                    let feeamt = rng.range(0, 20);
+                    let mut outs = vec![(pk, input.amount - a - feeamt)];
+                    if rng.chance(3, 4) {
+                        outs.push((me, a));
+                    } else {
+                        outs.push((if pk == pk2 { pk3 } else { pk2 }, a));
+                    }
+                    if rng.chance(1, 5) {
+                        outs[0].1 -= 7;
+                        outs.push((me, 7));
+                    }
+                    txs.push(world::make_tx(&[input], &outs, &sk, ts));
+                }
+            }
+        }
+        if !built.is_empty() && rng.chance(2, 3) {
+            let j = rng.below(built.len() as u64) as usize;
+            let mut t = built.remove(j);
+            t.timestamp = ts;
+            t.sign(&node.sk);
+            txs.push(t);
+        }
+        if txs.is_empty() {
+            let f = fund(&pk2, &node.blockchain.utxoset);
+            if let Some(k) = f.first() {
+                let input = Slip::parse_slip_from_utxokey(k).unwrap();
+                txs.push(world::make_tx(&[input.clone()], &[(pk2, input.amount - 5), (me, 5)], &sk2, ts));
+            }
+        }
+        match make_block(&node, b.hash, ts, txs, i % 2 == 1, i).await {
+            Ok(nb) => next = Some(nb),
+            Err(e) => {
+                rec.notes.push(format!("make_block failed: {}", e));
+                break;
+            }
+        }
+    }
+    (rec, blocks)
+}
+
+/// unit level over REAL blocks: a stand-alone wallet wound over the node's chain,
+/// with the top blocks unwound and re-wound, transactions built in between
+fn case_real_blocks(rng: &mut Rng, dbg: bool, gp: u64, blocks: &[Block]) -> Rec {
+    let mut sim = Sim::new("real-blocks", gp, dbg);
+    let (pk2, _) = keypair(2);
+    let n = blocks.len();
+    let cut = if n > 4 { rng.range(2, (n - 1) as u64) as usize } else { n };
+    for b in &blocks[0..cut] {
+        if sim.dead {
+            return sim.rec;
+        }
+        sim.wind(b.clone(), gp, true);
+        if rng.chance(1, 4) && !sim.dead {
+            let latest = sim.top();
+            let (pays, fee) = pick_request(rng, &sim.w, latest, gp);
+            let keys = pays.iter().map(|_| pk2).collect();
+            sim.create(CreateCall { keys, payments: pays, fee, latest, gp }, true);
+        }
+    }
+    let depth = rng.range(1, 3).min(cut as u64) as usize;
+    for _ in 0..depth {
+        if sim.dead {
+            return sim.rec;
+        }
+        let b = sim.stack.pop().unwrap();
+        sim.unwind(b, gp, true);
+    }
+    if !sim.dead {
+        let latest = sim.top();
+        let bal = sim.w.get_available_balance();
+        sim.create(CreateCall { keys: vec![pk2], payments: vec![bal / 2 + 1], fee: 0, latest, gp }, true);
+    }
+    for b in &blocks[cut - depth..] {
+        if sim.dead {
+            return sim.rec;
+        }
+        sim.wind(b.clone(), gp, true);
+    }
+    sim.rec
+}
+
+// ------------------------------------------------------------------ main
+
+fn main() {
+    let args = Args::parse();
+    verif_harness::common::init_log();
+    let mut rng = Rng::new(args.seed);
+    let thorough = args.tier == "thorough";
+    std::panic::set_hook(Box::new(|_| {}));
+    let dbg = dbg_mode();
+    let rt = tokio::runtime::Builder::new_current_thread().enable_all().build().unwrap();
+
+    let mut recs: Vec<Rec> = vec![];
+    for which in 0..4 {
+        recs.push(case_scripted(which, dbg));
+    }
+    let n_chain = if thorough { 1500 } else { 220 };
+    for i in 0..n_chain {
+        let len = match i % 3 {
+            0 => rng.range(6, 14),
+            1 => rng.range(14, 30),
+            _ => rng.range(25, 45),
+        } as usize;
+        recs.push(case_chain(&mut rng, dbg, len));
+    }
+    let n_raw = if thorough { 1500 } else { 220 };
+    for i in 0..n_raw {
+        let len = if i % 2 == 0 { rng.range(5, 15) } else { rng.range(15, 40) } as usize;
+        recs.push(case_raw(&mut rng, dbg, len));
+    }
+    let n_node = if thorough { 8 } else { 2 };
+    for round in 0..n_node {
+        for gp in [3u64, 5, 8] {
+            let extra = if thorough { rng.range(0, 6) } else { 0 };
+            let mut r2 = rng.fork();
+            let (rec, blocks) = rt.block_on(case_node(&mut r2, dbg, gp, extra + round % 2));
+            recs.push(rec);
+            if blocks.len() > 3 {
+                recs.push(case_real_blocks(&mut r2, dbg, gp, &blocks));
+            }
+        }
+    }
+
+    let mut summary = Summary::new("C19");
+    summary.notes.push(format!("overflow checks: {}", if dbg { "on (debug)" } else { "off (release)" }));
+    let mut coq_cases: Vec<String> = vec![];
+    let mut distinct: BTreeSet<String> = BTreeSet::new();
+    for (i, rec) in recs.iter().enumerate() {
+        let groups: Vec<String> = rec.groups.iter().map(|(ops, _)| gal::list(ops)).collect();
+        let obs: Vec<Vec<Vec<u64>>> = rec.groups.iter().map(|(_, r)| r.clone()).collect();
+        let input = gal::list(&groups);
+        coq_cases.push(format!("({}, {})", input, gal::nlllist(&obs)));
+        summary.count("kind", &rec.kind);
+        summary.count("gp", &format!("{}", rec.gp));
+        summary.count("steps", &format!("{}", (rec.groups.len() / 10) * 10));
+        summary.count("creates_ok", &format!("{}", rec.creates_ok.min(5)));
+        summary.count("unwinds", &format!("{}", rec.unwinds.min(4)));
+        for p in &rec.panics {
+            summary.count("panic_site", &format!("{}", p));
+        }
+        if rec.creates_real_input > 0 && rec.winds_changed > 0 {
+            if distinct.insert(input.clone()) {
+                summary.nontrivial += 1;
+            }
+        }
+        let ops_json: Vec<String> = rec.groups.iter().map(|(ops, _)| jstr(&ops.join(" ;; "))).collect();
+        let desc = format!(
+            "{{\"case\":{},\"kind\":{},\"gp\":{},\"debug\":{},\"ops\":[{}]}}",
+            i,
+            jstr(&rec.kind),
+            rec.gp,
+            dbg,
+            ops_json.join(",")
+        );
+        for f in &rec.failures {
+            summary.oracle_failure(i, f, &desc);
+        }
+        for (id, what) in &rec.known {
+            summary.known_hit(id, i, what);
+            summary.count("known", id);
+        }
+        for n in &rec.notes {
+            summary.notes.push(format!("case {}: {}", i, n));
+        }
+        if (i < 4 || rec.kind == "node") && summary.samples.len() < 6 && desc.len() < 20_000 {
+            summary.samples.push(desc.clone());
+        }
+        summary.case_descs.push(desc);
+    }
+    summary.evaluations = recs.len() as u64;
+    let header = format!(
+        "From Saito Require Import Base Wallet.\n\
+         Local Notation K := mkK.\nLocal Notation S := mkSlip.\nLocal Notation T := mkTx.\nLocal Notation B := mkB.\n\
+         Definition check (c : list (list op) * list (list (list N))) : bool :=\n\
+         eqb_lllN (trace {} (init 1) (fst c)) (snd c).",
+        gal::boolean(dbg)
+    );
+    let files = gal::write_shards(
+        &format!("{}/cases", args.out),
+        "C19",
+        &header,
+        "list (list op) * list (list (list N))",
+        &coq_cases,
+        args.shards,
+    )
+    .unwrap();
+    summary.case_files = files;
+    summary.write(&args.out);
 }
